@@ -641,6 +641,53 @@ def check_class_parser(fx, rep, rule):
     return sk
 
 
+def norm_split_once(entry):
+    """`let (t, rest) = parse_until(cur, S)?; match t.split_once(c) { Some((a, b)) => .., None => .. }` with a one-byte char c outside S
+    reads the same language as `parse_until(cur, S + {c})` followed by an optional `lit(c) parse_until(.., S)`: the capture t holds no
+    byte of S, so its part before the first c is the S+{c}-bounded scan and the part after it is the S-bounded one; without a c
+    in t the S+{c}-bounded scan stops where the S-bounded one does. Returns (events, wiring) in that second form."""
+    events, rec, idx_of, st = entry
+    w = record_wiring(rec, idx_of)
+    conds = [(record_wiring(a, idx_of), pol) for a, pol in st.conds]
+    for a, pol in conds:
+        if not (a[0] == "is" and a[2] == "Some" and a[1][0] == "call" and a[1][1] == "core::str::split_once" and len(a[1][2]) == 2):
+            continue
+        x, c = a[1][2]
+        if not (x[0] == "cap" and len(x) == 2 and c[0] == "lit" and c[1] == "char" and ord(c[2]) < 128):
+            continue
+        i = x[1]
+        if i is None or not (0 <= i < len(events)) or events[i][0] != "until" or events[i][1] is None or ord(c[2]) in events[i][1]:
+            continue
+        bs = events[i][1]
+        cb = bytes([ord(c[2])])
+        wide = ("until", tuple(sorted(set(bs) | {ord(c[2])})))
+        shift = 2 if pol else 1
+        mid = (wide, ("lit", cb), ("until", bs)) if pol else (wide, ("no-lit", cb))
+        so = a[1]
+
+        def f(t, i=i, so=so, pol=pol, shift=shift):
+            if pol and t[0] == "field" and t[2] in ("0", "1") and t[1] == mk_payload(so, "Some", "0"):
+                return ("cap", i if t[2] == "0" else i + 2)
+            if t[0] == "cap" and len(t) == 2 and t[1] is not None and t[1] > i:
+                return ("cap", t[1] + shift)
+            return None
+        w2 = fc.rewrite(w, f)
+        # the whole capture may survive only where it means the same thing: nowhere on the Some path (it would span the separator)
+        if pol and ("cap", i) in set(subterms_of(fc.rewrite(w, lambda t, so=so: ("hole",) if t == mk_payload(so, "Some", "0") else None))):
+            continue
+        return events[:i] + mid + events[i + 1:], w2
+    return events, w
+
+
+def subterms_of(t):
+    if isinstance(t, tuple):
+        yield t
+        for x in t:
+            if isinstance(x, tuple):
+                for y in subterms_of(x):
+                    yield y
+
+
 def check_header_parser(fx, rep, rule):
     use(fx)
     p = A.one(rep, rule, "mapping::parse_proguard_header", A.func(fx, "mapping", "parse_proguard_header"))
@@ -661,7 +708,8 @@ def check_header_parser(fx, rep, rule):
     }
     have = {}
     for s_ in sk:
-        have.setdefault(s_[0], []).append(s_)       # (several paths may share one event sequence: every one of them is checked)
+        ev2, w2 = norm_split_once(s_)
+        have.setdefault(ev2, []).append((ev2, w2))       # (several paths may share one event sequence: every one of them is checked)
     missing = [e for e in want if e not in have]
     extra = [e for e in have if e not in want]
     # F1: the sourceFile value scan must be line-bounded
@@ -676,7 +724,7 @@ def check_header_parser(fx, rep, rule):
         if e not in have:
             continue
         for sk_ in have[e]:
-            w = record_wiring(sk_[1], sk_[2])
+            w = sk_[1]
             if kind == "json":
                 g = w == ("adt", "ProguardRecord", "Header", (("key", ("lit", "str", "sourceFile")), ("value", some(("cap", 2)))))
             elif kind == "kv":
